@@ -18,7 +18,6 @@ package core
 
 import (
 	"encoding/json"
-	"fmt"
 	"sync"
 	"time"
 )
@@ -394,7 +393,9 @@ func (s *LinearState) doFindRules(ctx *Context, event Map) (map[string]Map, erro
 				}
 			}
 		default:
-			panic(fmt.Errorf("rule %#v bad type", rule))
+			// A fact with a 'rule' property that isn't a rule
+			// body.  Not a rule, so it can't be found as one.
+			Log(WARN, ctx, "LinearState.FindRules", "name", s.Name, "id", id, "warning", "'rule' isn't a map")
 		}
 	}
 
